@@ -1,6 +1,7 @@
 /* drv_mem.c - replays Mem.tla behaviours through m_mem_new/ref/unref/unrefp/size.
  * obs  = ret[,events...]   events: 10+b destructor on b, 20+b memory of b returned to the allocator
  * proj = per block  N | D | L<size>a<aligned>p<pattern intact>  joined by ';' */
+#define GW_SIMPLE_RUNNER
 #include "gw.h"
 #include "vp_alloc.h"
 #include <stdalign.h>
@@ -89,43 +90,32 @@ static int gw_is_nontrivial(const int *prog, int n) {
     return unref;
 }
 
-static int gw_run(const int *prog, int n) {
-    char obs[512], proj[512];
-    long base = vp_outstanding;
+static int gw_is_observer(const gw_edge *e) { return !strcmp(e->act, "SizeOf") || !strcmp(e->act, "NullOp"); }
+static int gw_choice_fixed(const gw_edge *e) { return -1; }
+static long base_out;
+static void gw_begin(void) {
+    base_out = vp_outstanding;
     for (int b = 0; b <= NB; b++) { memset(&B[b], 0, sizeof B[b]); if (b > nblocks) B[b].created = -1; }
-    int rc = 0;
-    for (int i = 0; i < n; i++) {
-        gw_cur_step = i;
-        gw_edge *e = &gw_edges[prog[i]];
-        gw_state *d = &gw_states[e->dst];
-        apply(e, obs, sizeof obs);
-        project(proj, sizeof proj);
-        int ok_obs = !strcmp(obs, d->obs), ok_proj = !strcmp(proj, d->proj);
-        if (ok_obs && ok_proj) continue;
-        char sig[128];
-        const char *what = ok_obs ? "state" : "ret";
-        if (!ok_proj && strstr(proj, "a0")) what = "misaligned";
-        if (!ok_proj && strstr(proj, "p0")) what = "corrupted";
-        snprintf(sig, sizeof sig, "mem-%s-%s", e->act, what);
-        gw_mismatch(prog, n, i, sig, "expected obs=%s proj=%s ; got obs=%s proj=%s (L<size>a<aligned>p<intact>)", d->obs, d->proj, obs, proj);
-        rc = 1;
-        break;
-    }
-    gw_cur_step = n;
-    /* teardown: drop every reference still owned by the program: unref roots until dead */
+}
+static void gw_step(const gw_edge *e, char *obs, char *proj, size_t n) {
+    apply((gw_edge *)e, obs, n);
+    project(proj, n);
+}
+static void gw_sig(const int *prog, int i, const gw_edge *e, int ok_obs, char *sig, size_t n) {
+    snprintf(sig, n, "mem-%s-%s", e->act, ok_obs ? "state" : "ret");
+}
+static int gw_end(char *msg, size_t n) {
+    /* drop every reference still owned by the program: unref roots until everything is dead */
     for (int round = 0; round < 16; round++)
         for (int b = 1; b <= nblocks; b++) {
             int is_child = 0;
             for (int q = 1; q <= nblocks; q++) if (B[q].live && B[q].child == b) is_child = 1;
             if (B[b].live && !is_child) m_mem_unref(B[b].ptr);
         }
-    for (int b = 1; b <= nblocks; b++) if (B[b].live) { /* child without dtor-parent cannot happen */ m_mem_unref(B[b].ptr); }
-    if (rc == 0 && vp_outstanding != base) {
-        gw_mismatch(prog, n, n - 1, "mem-leak", "allocator ledger: %ld blocks outstanding after all references were dropped", vp_outstanding - base);
-        rc = 1;
-    }
-    vp_outstanding = base;
-    return rc;
+    long left = vp_outstanding - base_out;
+    vp_outstanding = base_out;
+    if (left) { snprintf(msg, n, "allocator ledger: %ld blocks outstanding after all references were dropped", left); return 1; }
+    return 0;
 }
 
 /* ---------------- E3: trace mode (random programs beyond the bounded model) ---------------- */
